@@ -65,9 +65,72 @@ def shared_lambda_oracle(ctx):
                     before = after
 
 
+def shared_text_oracle(ctx):
+    """The same lambda TEXT (and the same Python callable) given to operators on streams of different item types - untyped,
+    and two typed datasets whose classes declare different defaults: every stream keeps the query it had when it was made
+    (seed C11-w6-2: one parsed tree per text, shared between streams and then edited in place by type following)."""
+    import ast
+    from typing import Iterable
+    from func_adl import EventDataset
+
+    class Jet:
+        def pt(self, scale: int = 7) -> int: ...
+
+    class Evt:
+        def Jets(self, name: str = "dflt") -> Iterable[Jet]: ...
+        def met(self, unit: int = 1) -> int: ...
+
+    class Jet2:
+        def pt(self, scale: int = 8, extra: str = "x") -> int: ...
+
+    class Evt2:
+        def Jets(self, name: str = "other", n: int = 2) -> Iterable[Jet2]: ...
+        def met(self, unit: int = 5, k: int = 0) -> int: ...
+
+    def mk(cls):
+        if cls is None:
+            class U(EventDataset):
+                async def execute_result_async(self, a, title=None):
+                    return a
+            return U()
+
+        class T(EventDataset[cls]):  # type: ignore
+            def __init__(self):
+                super().__init__(cls)
+
+            async def execute_result_async(self, a, title=None):
+                return a
+        return T()
+
+    rng = ctx.rng
+    texts = ["lambda e: e.Jets()", "lambda e: (e.met(), 1)", "lambda e: e.Jets().Select(lambda j: j.pt())", "lambda e: e.met() > 2",
+             "lambda e: e.Jets(name='a')", "lambda e: [e.met(unit=3), e.met()]"]
+    f_callable = lambda e: e.met()  # noqa: E731
+    for text in texts + [f_callable]:
+        order = [None, Evt, Evt2, None, Evt2, Evt]
+        rng.shuffle(order)
+        made = []
+        for cls in order:
+            op = "Where" if isinstance(text, str) and ">" in text else "Select"
+            try:
+                s = getattr(mk(cls), op)(text)
+            except Exception:
+                continue
+            made.append((s, ast.dump(s.query_ast), s.item_type, cls.__name__ if cls else "untyped"))
+            ctx.count(f"shared-text:{text if isinstance(text, str) else 'callable'}:{[c.__name__ if c else 'U' for c in order]}", True,
+                      tags=["same lambda text on streams of different item types"])
+            for (s0, d0, t0, n0) in made:
+                if ast.dump(s0.query_ast) != d0 or s0.item_type != t0:
+                    ctx.violate({"text": text if isinstance(text, str) else "lambda e: e.met()", "order": [c.__name__ if c else "untyped" for c in order],
+                                 "changed_stream_on": n0, "before": d0[-250:], "after": ast.dump(s0.query_ast)[-250:]},
+                                "C11: deriving a stream with the same lambda text on another dataset changed an existing stream's query")
+                    return
+
+
 def run(ctx):
     streams.run_histories(ctx, ctx.n(150, 4000), ID)
     shared_lambda_oracle(ctx)
+    shared_text_oracle(ctx)
 
 
 def replay(ctx, case):
